@@ -270,8 +270,17 @@ def run(ctx):
         tr.append(dict(op='gen_indices', n=n1, r=half + rest))
         # every length is asked about twice (the same selector is applied to frame arrays of the same length again and again),
         # and the caller uses up the list it was given: what a call returns belongs to the caller
+        # other selector objects are in use at the same time (one per frame array of a file); what they select does not depend on it
+        others = [S.Sample(5), S.Slice(1, None, 2), S.Slice(None, None, -3)]
+        alone = [(o_.indices(37), o_.count(37), o_.first(37)) for o_ in others]
         for n in lens + lens[:2]:
             for op in rng.sample(['indices', 'gen_indices', 'count', 'first'], 4):
+                o_ = others[len(tr) % 3]
+                now_ = (list(o_.gen_indices(37)), o_.count(37), o_.first(37))
+                if now_ != alone[len(tr) % 3]:
+                    ctx.fail('a selector used alternately with another one selects %r of 37, alone %r' % (now_, alone[len(tr) % 3]),
+                             dict(kind='two-objects', first=traces and tr[0]), sig=dict(kind='two-objects'))
+                    alone[len(tr) % 3] = now_
                 if op == 'indices':
                     given = obj.indices(n)
                     r = list(given)
